@@ -188,7 +188,9 @@ class C27(Check):
 
         final, fail = partial("wild", "w")
         if fail is not None:
-            if fail.timed_out or progen.wild_crashed(fail):
+            if fail.timed_out:
+                raise Inconclusive("wild -r timed out")
+            if progen.wild_crashed(fail):
                 raise Violation("wild-r-crash", f"wild -r crashed: {fail.err[-400:]}", {"groups": groups})
             raise Discard("wild -r rejects: " + _errline(fail.err))
         s, out, rc = progen.behaviour("wild", mode, final, ctx, "wpart", libs=em["libs"])
